@@ -92,6 +92,13 @@ int main(void) {
                 printf("%s[%u,%u,%u,%u,%u,%u,%u]", l?",":"", c->windowLog, c->chainLog, c->hashLog, c->searchLog, c->minMatch, c->targetLength, (unsigned)c->strategy); }
             printf("]"); }
         printf("],\n"); }
+    /* parameter rows after adjustment for the four source-size tiers ZSTD_estimateCCtxSize_internal looks at (16 KB, 128 KB, 256 KB, unknown) */
+    {   int t, l; unsigned long long tiers[4] = { 16 << 10, 128 << 10, 256 << 10, 0 /* unknown */ }; printf("\"adjRows\": [");
+        for (t = 0; t < 4; t++) { printf("%s[", t?",":"");
+            for (l = 0; l <= ZSTD_MAX_CLEVEL; l++) { ZSTD_compressionParameters const c = ZSTD_getCParams(l, tiers[t], 0);
+                printf("%s[%u,%u,%u,%u,%u,%u,%u]", l?",":"", c.windowLog, c.chainLog, c.hashLog, c.searchLog, c.minMatch, c.targetLength, (unsigned)c.strategy); }
+            printf("]"); }
+        printf("],\n"); }
     /* ZSTD_COMPRESSBOUND on a fixed grid of boundary values */
     {   unsigned long long g[] = {0,1,2,255,256,257,2047,2048,2049,65535,65536,131071,131072,131073,262143,262144,262145,
                                   1048576,16777215,16777216,4294967295ULL,4294967296ULL,1099511627776ULL};
